@@ -277,7 +277,8 @@ def path(eng, acc, task, focus='C16'):
             eng.mark('add_ids_renamed')
     except DeadPath:
         raise
-    except (AssertionError, ValueError, IndexError, KeyError, TypeError, RuntimeError) as e:
+    except Exception as e:
+        reraise_internal(e)
         import traceback
         ln = traceback.extract_tb(e.__traceback__)[-1].lineno
         candidate(eng, acc, task, 'graph_rewrite', f'rewrite:{op}:raises:{type(e).__name__}@{ln}', repr(e), inputs)
